@@ -348,7 +348,8 @@ fn lane_point(table: &[Entry], c: &LaneCase, obs: &mut Obs) -> PropResult {
             obs.class("tolerance scaled by measured conditioning");
         } else if i == 0 {
             obs.err(pv::runner::intern(&format!("{} {}", if f32_ { "f32" } else { "f64" }, e.kind)), d);
-            obs.err_with(pv::runner::intern(&format!("{} {}", VNAMES[e.v as usize], e.name)), d, || c.clone());
+            // (worst error per table entry, without the case: 2230 entries x 8 lanes would make the evidence file 7 MB)
+            obs.err(pv::runner::intern(&format!("{} {}", VNAMES[e.v as usize], e.name)), d);
         }
         ensure!(d <= lim, "{} {}: lane {} gives {:?}, the scalar operation on that lane's input gives {:?} (distance {:e}, allowed {:e}; lane input {:?} / {:?} / {})", VNAMES[e.v as usize], e.name, i, g, w, d, lim, c.lanes[i], c.lanes2[i], c.factor[i]);
     }
